@@ -502,6 +502,41 @@ func xmlCase(pred string, desc bool, tfail string, count int, r *vh.Rng) *Case {
 	return c
 }
 
+// xmlShapeCase: record-level shapes whose per-record reader state must not accumulate:
+//   "ns-on-record": every target element carries its own namespace declaration(s);
+//   "data-names":   the record elements are named after their id (<ord-0000001>), target /orders/*.
+func xmlShapeCase(shape string, filter bool, count int, r *vh.Rng) *Case {
+	a, a2, b, b2, cc := vals(r)
+	c := &Case{Format: "xml", Count: count, Kind: fmt.Sprintf("xml shape=%s filter=%v", shape, filter)}
+	var rec func(a, b, c string) string
+	var tg *sx.Target
+	switch shape {
+	case "ns-on-record":
+		c.Open, c.Close = "<feed>", "</feed>"
+		tg = &sx.Target{Steps: []sx.Step{{NT: nt("feed")}, {NT: nt("item")}}}
+		rec = func(a, b, c string) string {
+			return `<item xmlns:g="urn:g" xmlns:h="urn:h"><g:id>#I#</g:id><h:x>1</h:x><a>` + a + `</a><b>` + b + `</b><c>` + c + `</c></item>`
+		}
+	default:
+		c.Open, c.Close = "<orders>", "</orders>"
+		tg = &sx.Target{Steps: []sx.Step{{NT: nt("orders")}, {NT: sx.NT{Any: true}}}}
+		rec = func(a, b, c string) string {
+			return `<ord-#I#><a>` + a + `</a><b>` + b + `</b><c>` + c + `</c><line-#I#>1</line-#I#></ord-#I#>`
+		}
+	}
+	c.Indexed = true
+	if filter {
+		tg.Filters = []*sx.PExp{notChildEq("a", "skip")}
+	}
+	c.Target = tg
+	c.Schema = `{` + hdr("xml") + `, ` + finalOutput(`"xpath": `+jsonQuote(tg.XPath())+`,`) + `}`
+	c.Recs = []string{rec(a, b, cc), rec("skip", b2, cc), rec(a2, "x9", cc), rec(a2, b2, cc)}
+	c.Pass = []bool{true, !filter, true, true}
+	c.TFail = []bool{false, false, true, false}
+	c.Prefix, c.Order = order(r, filter, "every-k")
+	return c
+}
+
 // jsonCase: records are array elements or the values of an object keyed by id, at the top level
 // or nested below objects; records are objects or scalars.
 func jsonCase(shape string, scalar, filter bool, tfail string, count int, r *vh.Rng) *Case {
@@ -537,7 +572,7 @@ func jsonCase(shape string, scalar, filter bool, tfail string, count int, r *vh.
 	a, a2, b, b2, cc := vals(r)
 	key := func(s string) string {
 		if keyed {
-			return `"id#I#":` + s
+			return `"ord-#I#":` + s
 		}
 		return s
 	}
@@ -555,7 +590,12 @@ func jsonCase(shape string, scalar, filter bool, tfail string, count int, r *vh.
 		c.TFail = []bool{false, filter == false, true, false} // "skip" is not an int either
 	} else {
 		c.Schema = `{` + hdr("json") + `, ` + finalOutput(`"xpath": `+jsonQuote(tg.XPath())+`,`) + `}`
-		obj := func(a, b, c string) string { return key(fmt.Sprintf(`{"a":%q,"b":%q,"c":%q}`, a, b, c)) }
+		obj := func(a, b, c string) string {
+			if keyed { // names that are data, at record level and inside the record
+				return key(fmt.Sprintf(`{"a":%q,"b":%q,"c":%q,"by-id":{"line-#I#":1}}`, a, b, c))
+			}
+			return key(fmt.Sprintf(`{"a":%q,"b":%q,"c":%q}`, a, b, c))
+		}
 		c.Recs = []string{obj(a, b, cc), obj("skip", b2, cc), obj(a2, "x9", cc), obj(a2, b2, cc)}
 		c.Pass = []bool{true, !filter, true, true}
 		c.TFail = []bool{false, false, true, false}
@@ -736,6 +776,7 @@ func heapRun(o *vh.Opts, c *Case, sum *vh.Summary, slack uint64, verbose bool) b
 	var samples []sample
 	fin := ""
 	reads := 0
+	t0 := time.Now()
 	func() {
 		defer func() {
 			if p := recover(); p != nil {
@@ -807,6 +848,9 @@ func heapRun(o *vh.Opts, c *Case, sum *vh.Summary, slack uint64, verbose bool) b
 		fmt.Printf("format=%s kind=%q count=%d reads=%d\nlive heap samples: %v\n", c.Format, c.Kind, c.Count, reads, samples)
 	}
 	growth := int64(hi) - int64(lo)
+	if os.Getenv("C17_TIMING") != "" {
+		fmt.Fprintf(os.Stderr, "heap run %-70s %v growth=%d\n", c.Format+" "+c.Kind, time.Since(t0), growth)
+	}
 	if m, ok := sum.Extra["heap_growth_bytes_last_third_vs_first_third"].(map[string]int64); ok {
 		m[c.Format+" "+c.Kind] = growth
 	} else {
@@ -840,7 +884,7 @@ func heapSlack(o *vh.Opts) uint64 {
 	if o.Tier == "thorough" {
 		return 2 << 20
 	}
-	return 1 << 20
+	return 512 << 10
 }
 
 func main() {
@@ -939,6 +983,10 @@ func main() {
 		one(xmlCase(p, true, tfails[r.Pick(len(tfails))], size(false), r))
 	}
 	one(xmlCase("attr", false, "multi-match", size(false), r))
+	for _, sh := range []string{"ns-on-record", "data-names"} {
+		one(xmlShapeCase(sh, false, size(false), r))
+		one(xmlShapeCase(sh, true, size(false), r))
+	}
 	// JSON stream reader
 	one(jsonCase("root-array", false, false, "none", big, r))
 	one(jsonCase("object-values", false, true, "none", size(true), r))
@@ -949,7 +997,7 @@ func main() {
 		one(jsonCase(sh, true, false, "none", size(false), r))
 	}
 	// ---- live heap over long inputs: every format and record style, with and without filter ----
-	long := 60000
+	long := 40000
 	if o.Tier == "thorough" {
 		long = 300000
 	}
@@ -962,14 +1010,28 @@ func main() {
 		sum.Hist("format:" + c.Format)
 		sum.Hist("heap-run")
 	}
-	for _, fx := range flatFixtures() {
-		heap(flatCase(fx, false, false, "none", long, r))
-		heap(flatCase(fx, true, false, "none", long, r))
+	for i, fx := range flatFixtures() {
+		// one long run per fixture in quick (both in thorough): with rejections where an instance
+		// is a subtree, without for the plain / rows-based / header-footer records, alternating by seed
+		filter := fx.variant == "child-records" || fx.variant == "child-envelopes" || fx.variant == "group-target"
+		if fx.variant == "" {
+			filter = (int(o.Seed)+i)%2 == 0
+		}
+		heap(flatCase(fx, filter, false, "none", long, r))
+		if o.Tier == "thorough" {
+			heap(flatCase(fx, !filter, false, "none", long, r))
+		}
 	}
 	heap(xmlCase("none", false, "none", long, r))
 	heap(xmlCase("child", false, "none", long, r))
 	heap(jsonCase("root-array", false, false, "none", long, r))
 	heap(jsonCase("object-values", false, true, "none", long, r))
+	// per-record reader state: declarations on the record element, names that are data
+	heap(xmlShapeCase("ns-on-record", false, long, r))
+	heap(xmlShapeCase("ns-on-record", true, long, r))
+	heap(xmlShapeCase("data-names", false, long, r))
+	heap(jsonCase("object-values", false, false, "none", long, r))
+	heap(jsonCase("nested-object-values", false, true, "none", long, r))
 	cw.Flush()
 	sum.CaseFiles = cw.Files
 	sum.Write(o)
